@@ -1,0 +1,38 @@
+//go:build verif
+
+// Contracts for the verification harness in /verif (comment-only; this file
+// contains no executable code and is compiled only with the verif tag).
+
+package readdir
+
+// ---- C19: one page of a directory listing ------------------------------------
+//
+// names is the directory in listing order; the offset cookie of an entry is
+// its index + 1, so a listing resumed at "the Offset of the last entry
+// received" continues with the next index. A page is
+// names[offset : min(offset+count, len(names))] (count is an upper bound on
+// the entries returned; the server cuts the reply to whole entries within the
+// requested byte count, rreaddir.encode in p9).
+//@ inline min
+//
+//@ define pageEnd(offset uint64, count uint32, n int) int = ite(offset + uint64(count) < uint64(n), int(offset + uint64(count)), n)
+//
+//@ func Readdir
+//@   requires[C19] @listing-fits-the-address-space len(names) <= 1000000000
+//@   modifies arrays(p9.Dirent)
+//@   ensures[C19] @no-error result1 == nil
+//@   ensures[C19] @past-the-end-is-empty offset >= uint64(len(names)) ==> len(result0) == 0
+//@   ensures[C19] @page-length offset < uint64(len(names)) ==> len(result0) == pageEnd(offset, count, len(names)) - int(offset)
+//@   ensures[C19] @page-is-the-next-slice-of-the-listing offset < uint64(len(names)) ==> forall(j, 0, len(result0), result0[j].Name == names[int(offset) + j] && result0[j].Offset == offset + uint64(j) + 1)
+//@   ensures[C19] @qid-and-type-from-the-table offset < uint64(len(names)) ==> forall(j, 0, len(result0), result0[j].QID == qids[names[int(offset) + j]] && result0[j].Type == qids[names[int(offset) + j]].Type)
+//@   loop 0 invariant[C19] 0 <= rangeindex + 1 && rangeindex + 1 <= end - int(offset) && len(dirents) == rangeindex + 1 && offset < uint64(len(names)) && end == pageEnd(offset, count, len(names))
+//@   loop 0 invariant[C19] forall(j, 0, len(dirents), dirents[j].Name == names[int(offset) + j] && dirents[j].Offset == offset + uint64(j) + 1)
+//@   loop 0 invariant[C19] forall(j, 0, len(dirents), dirents[j].QID == qids[names[int(offset) + j]] && dirents[j].Type == qids[names[int(offset) + j]].Type)
+//@   safety[C19]
+//@   nopanic
+//
+// Paging: a client that received k >= 1 entries of the page at offset resumes
+// at the Offset of the last one, which is offset + k: pages are consecutive,
+// disjoint and advance, so every index below len(names) is listed exactly once.
+//@ lemma pagingCoversEveryEntryOnce
+//@   lemma[C19] @resume-cookie-is-the-next-index forall(offset, uint64, forall(k, uint64, k >= 1 && offset + k >= offset ==> (offset + (k - 1)) + 1 == offset + k && offset + k > offset))
